@@ -140,5 +140,5 @@ __CPROVER_ensures(SOUND); \
 void h_##tag(void){ MK_D2(a, b); HGHOSTS; D r; fn(&r, &a, &b); REACH; }
 #define IN2 (d_has(self, g_x) && d_has(x, g_y))
 #define STRICT ((d_bot(self) || d_bot(x)) ==> d_bot(ret))
-//@check id=d_add fn=_ZNK4crab7domains12dis_intervalIN4ikos8z_numberEEplERKS4_ props=C08 unwind=6 bounded="<=2 disjuncts" vary=DS:15 timeout=900 first_timeout=600 backends=cadical,kissat
+//@check id=d_add fn=_ZNK4crab7domains12dis_intervalIN4ikos8z_numberEEplERKS4_ props=C08 unwind=6 bounded="<=2 disjuncts" vary=DS:10,11 timeout=900 first_timeout=600 backends=cadical,kissat
 DBIN(d_add, _ZNK4crab7domains12dis_intervalIN4ikos8z_numberEEplERKS4_, 2 * ZB, 1, STRICT, IN2 ==> d_has(ret, g_x + g_y))
